@@ -24,7 +24,8 @@ pub struct Case {
     pub rng_hex: Option<String>,
     /// equality relations between inputs that are otherwise independent (0 = none): 1 psk_id == info, 2 psk == info,
     /// 3 psk == psk_id, 4 psk == psk_id == info == every aad, 5 every aad == info (and one exporter context == info),
-    /// 6 info == the recipient's public key bytes, 7 psk_id == the encapsulated-key-sized prefix of info
+    /// 6 info == the recipient's public key bytes, 7 psk_id == the encapsulated-key-sized prefix of info, 8 the RNG hands out
+    /// the bytes the recipient key was derived from (skE = skR, enc = pkR), 9 the same with the sender identity key
     #[serde(default)]
     pub equal: u8,
 }
@@ -75,9 +76,9 @@ impl Part for C02 {
     }
     fn bound(&self, cfg: &Cfg) -> String {
         if cfg.tier.thorough() {
-            "48 suites x 4 modes x 6 info lengths x 5 psk shapes (psk modes) x 6 message sequences (up to 25 messages) x 2 of 5 fills rotating; 7 equality relations between inputs x 48 suites x modes".into()
+            "48 suites x 4 modes x 6 info lengths x 5 psk shapes (psk modes) x 6 message sequences (up to 25 messages) x 2 of 5 fills rotating; 9 equality relations between inputs x 48 suites x modes; every length 0..600 of info / psk / psk_id for 3 suites".into()
         } else {
-            "48 suites x 4 modes x 2 info lengths x 2 psk shapes (psk modes) x 3 message sequences x 1 fill; 7 equality relations between inputs x 16 suites x modes".into()
+            "48 suites x 4 modes x 2 info lengths x 2 psk shapes (psk modes) x 3 message sequences x 1 fill; 9 equality relations between inputs x 16 suites x modes; every length 0..300 of info / psk / psk_id for 3 suites".into()
         }
     }
     fn enumerate(&self, cfg: &Cfg) -> Vec<Case> {
@@ -115,12 +116,30 @@ impl Part for C02 {
                 continue;
             }
             for mode in MODES {
-                for equal in 1..=7u8 {
+                for equal in 1..=9u8 {
                     if !mode.has_psk() && matches!(equal, 1 | 2 | 3 | 4 | 7) {
+                        continue;
+                    }
+                    if !mode.has_auth() && equal == 9 {
                         continue;
                     }
                     tag += 1;
                     v.push(Case { suite, mode, info_len: 17, psk_len: if mode.has_psk() { 17 } else { 0 }, psk_id_len: if mode.has_psk() { 17 } else { 0 }, msgs: vec![(9, 17), (0, 17)], fill: Fill::Mix, tag, rng_hex: None, equal });
+                }
+            }
+        }
+        // every LENGTH of info, psk_id and psk up to a few hash blocks (one suite per KDF): exports and one message vs R1
+        for suite in all_suites() {
+            if suite.kem != crate::refmodel::Kem::X25519 || suite.aead != crate::refmodel::Aead::ChaCha20Poly1305 {
+                continue;
+            }
+            let n = if t { 600 } else { 300 };
+            for l in 0..=n {
+                tag += 1;
+                v.push(Case { suite, mode: Mode::Base, info_len: l, psk_len: 0, psk_id_len: 0, msgs: vec![(3, 1)], fill: Fill::Mix, tag, rng_hex: None, equal: 0 });
+                if l > 0 {
+                    v.push(Case { suite, mode: Mode::Psk, info_len: 5, psk_len: l, psk_id_len: 4, msgs: vec![(3, 1)], fill: Fill::Mix, tag, rng_hex: None, equal: 0 });
+                    v.push(Case { suite, mode: Mode::AuthPsk, info_len: 5, psk_len: 32, psk_id_len: l, msgs: vec![(3, 1)], fill: Fill::Mix, tag, rng_hex: None, equal: 0 });
                 }
             }
         }
@@ -141,6 +160,11 @@ impl Part for C02 {
         let mut k = keys(c.suite.kem, c.tag, cfg.seed);
         if let Some(h) = &c.rng_hex {
             k.ikm_e = crate::obs::unhex(h);
+        }
+        match c.equal {
+            8 => k.ikm_e = bytes(Fill::Mix, c.suite.kem.nsk(), c.tag.wrapping_mul(3) + 1, cfg.seed),
+            9 => k.ikm_e = bytes(Fill::Mix, c.suite.kem.nsk(), c.tag.wrapping_mul(3) + 2, cfg.seed),
+            _ => {}
         }
         let info = bytes(c.fill, c.info_len, 10, cfg.seed);
         // PSK material: all-zero psk is a legal psk; keep psk != psk_id (different tags)
